@@ -175,6 +175,17 @@ func render(c caseT) (root M, files map[string]M, inlined M) {
 		// one reference replaced by a copy of its target (the property's wording): Extended inlines Base
 		comps2 := M{"Base": base, "Extended": ext(definitionCopy(base)), "Event": comps["Event"]}
 		inlined = doc(c.Kind, sites(c.Kind, func() any { return M{"$ref": "#/components/schemas/Event"} }), comps2)
+	case "sibling":
+		// site /a writes a keyword beside its reference, site /b does not: the inlined twin has the
+		// keyword at /a only
+		kw, val := "default", any(5)
+		if c.N == 2 {
+			kw, val = "enum", []any{1, 2}
+		}
+		comps["C1"] = M{"type": "integer"}
+		site := func(x M) M { return M{"get": M{"responses": M{"200": M{"description": "ok", "content": M{"application/json": M{"schema": x}}}}}} }
+		root = doc(c.Kind, M{"/a": site(M{"$ref": "#/components/schemas/C1", kw: val}), "/b": site(M{"$ref": "#/components/schemas/C1"})}, comps)
+		inlined = doc(c.Kind, M{"/a": site(M{"type": "integer", kw: val}), "/b": site(M{"type": "integer"})}, nil)
 	case "cross":
 		other := M{}
 		for i := 1; i < c.N; i++ {
@@ -460,7 +471,7 @@ func Check(r *core.Run) error {
 	r.AddEvals(int64(len(cases)))
 	r.AddTraces(int64(len(cases) + nCorpus))
 	_ = nCases
-	vs, err := obs.Check(r, col.lines, obs.CheckOpts{Module: "ResolverCheck", Cfg: obs.StdCfg(), ChunkSize: len(col.lines) + 1, Parallel: 1, Timeout: 20 * time.Minute})
+	vs, err := obs.Check(r, col.lines, obs.CheckOpts{Module: "ResolverCheck", Cfg: obs.StdCfg("KnownDeviations = " + r.KnownSet()), ChunkSize: len(col.lines) + 1, Parallel: 1, Timeout: 20 * time.Minute})
 	if err != nil {
 		return err
 	}
@@ -469,6 +480,8 @@ func Check(r *core.Run) error {
 		switch {
 		case strings.HasPrefix(v.Kind, "harness"):
 			r.Infra("%s", what)
+		case strings.HasPrefix(v.Kind, "known="):
+			r.KnownHit(strings.TrimPrefix(v.Kind, "known="), firstLine(desc[v.Index]))
 		default:
 			r.Violate(what, M{"line": string(col.lines[v.Index])})
 		}
@@ -485,7 +498,7 @@ func Check(r *core.Run) error {
 	for _, l := range self {
 		sl = append(sl, []byte(l))
 	}
-	svs, err := obs.Check(r, sl, obs.CheckOpts{Module: "ResolverCheck", Cfg: obs.StdCfg(), Parallel: 1})
+	svs, err := obs.Check(r, sl, obs.CheckOpts{Module: "ResolverCheck", Cfg: obs.StdCfg("KnownDeviations = {}"), Parallel: 1})
 	if err != nil {
 		return err
 	}
